@@ -905,7 +905,7 @@ func main() {
 		{"#", "\nx"}, {"#c", "x"}, {"a", "#c"}, {"\r", "x"}, {"", "\nx"}, {"{", "}"}, {"\ufeff", "a"},
 	}
 	for a := 0; a < 128; a++ {
-		for _, off := range []int{0x100, 0x400, 0x10000, 0x1F600} {
+		for _, off := range []int{0, 0x80, 0x100, 0x400, 0x10000, 0x1F600} { // 0: every ASCII character itself (bit-folding tests: r|0x20, r&^0x20, r^0x30 …); 0x80: Latin-1
 			r := string(rune(a + off))
 			for _, c := range aliasContexts {
 				b.add([]byte(c[0]+r+c[1]), mixed(b.n), "truncation-alias")
